@@ -41,3 +41,8 @@ package definition
 //@ property C14
 //@ assigns CloseCalls, CloseTarget
 //@ ensures [close-traced] CloseCalls == store(old(CloseCalls), CurTid, old(CloseCalls[CurTid]) + 1) && CloseTarget == store(old(CloseTarget), CurTid, self)
+
+// A component's declared qualifier is a pure function of the component (A-CALLBACK).
+//@ method (WireQualifier).Qualifier
+//@ pure
+//@ assigns nothing
